@@ -1560,3 +1560,29 @@ Proof.
     split; [unfold C04_CostPathDD.dotfree; repeat constructor; discriminate|].
     split; [vm_compute; reflexivity|]. split; [vm_compute; reflexivity|]. vm_compute. reflexivity.
 Qed.
+
+(* finding F-C04-9 for all n (kept as a Definition; instances n = 50, 100, 200 are in C04_cost_mime) *)
+Definition C04_9_quadratic_statement : Prop :=
+  forall n, N.of_nat n * (N.of_nat n - 1) <= 2 * C04_CostMime.mime_parse_cost (C04_CostMime.mime_distinct n).
+
+(* why the sufficient condition of C04_cost_path_upper (4) / (5) is on the CHARACTERS of a segment: push(".<TAB>.") is not
+   skipped by extend (only "." and ".." are), the Input iterator drops the TAB, the path state sees a double dot and POPS
+   the last segment: http://h/a/b becomes http://h/a/ in both configurations, whereas push("..") leaves the URL alone
+   (documented).  Replayed on the crate (see the final report of task c04fin); it is a frame-condition matter (C06), not a
+   panic or a cost finding. *)
+Theorem C04_push_tab_dotdot_witness :
+  Setters.path_segments_session true C04_CostPathDD.w_tab_url [Setters.PPush [46; 9; 46]]
+  = Some (mkUrl [104;116;116;112;58;47;47;104;47;97;47] 4 7 7 8 HI_Domain None 8 None None, Setters.SOk)
+  /\ Setters.path_segments_session false C04_CostPathDD.w_tab_url [Setters.PPush [46; 9; 46]]
+     = Some (mkUrl [104;116;116;112;58;47;47;104;47;97;47] 4 7 7 8 HI_Domain None 8 None None, Setters.SOk)
+  /\ Setters.path_segments_session true C04_CostPathDD.w_tab_url [Setters.PPush [46; 46]] = Some (C04_CostPathDD.w_tab_url, Setters.SOk)
+  /\ C04_CostPathUp.dd_count true CPathSegmentSetter STSpecialNotFile 8 [46; 9; 46] [104;116;116;112;58;47;47;104;47;97;47;98;47] 13 [] true = 1.
+Proof. exact C04_CostPathDD.push_tab_dotdot_witness. Qed.
+Check C04_push_tab_dotdot_witness :
+  Setters.path_segments_session true C04_CostPathDD.w_tab_url [Setters.PPush [46; 9; 46]]
+  = Some (mkUrl [104;116;116;112;58;47;47;104;47;97;47] 4 7 7 8 HI_Domain None 8 None None, Setters.SOk)
+  /\ Setters.path_segments_session false C04_CostPathDD.w_tab_url [Setters.PPush [46; 9; 46]]
+     = Some (mkUrl [104;116;116;112;58;47;47;104;47;97;47] 4 7 7 8 HI_Domain None 8 None None, Setters.SOk)
+  /\ Setters.path_segments_session true C04_CostPathDD.w_tab_url [Setters.PPush [46; 46]] = Some (C04_CostPathDD.w_tab_url, Setters.SOk)
+  /\ C04_CostPathUp.dd_count true CPathSegmentSetter STSpecialNotFile 8 [46; 9; 46] [104;116;116;112;58;47;47;104;47;97;47;98;47] 13 [] true = 1.
+Print Assumptions C04_push_tab_dotdot_witness.
